@@ -47,8 +47,15 @@ def main(tier, replay=None):
                       required=("InitPick", "Complete", "Finish") + (("LoopPick",) if s > w else ()))
     S.model_check(sc.chk, sc.work, "N3W2S3_more", {"N": 3, "Workers": 2, "Steps": 3, "MaxRestarts": 1, "MoreSteps": 1, "MaxPn": 11}, INV, [],
                   required=("InitPick", "LoopPick", "Complete", "Finish", "Kill", "Restart"))
+    # the weakening the repository had before 7cc4d53 (initiate() submits one job per worker whenever a step is left) must be refuted:
+    # a finished run continued with one more step on two workers ends with a job in flight
+    res = S.model_check(sc.chk, sc.work, "N3W2S3_overissue", {"N": 3, "Workers": 2, "Steps": 3, "MaxRestarts": 1, "MoreSteps": 1, "MaxPn": 11,
+                                                              "OverIssue": True}, ["StepsExact", "NeverTooMany"], [], expect_violation=True)
+    if res is not None and res["ok"]:
+        sc.chk.machinery("Infretis.tla with OverIssue = TRUE is not refuted: StepsExact / NeverTooMany do not see a job left in flight")
     sc.replay_behaviours("N3W2S4_more", {"N": 3, "Workers": 2, "Steps": 4, "MaxPn": 14, "MaxRestarts": 2, "MoreSteps": 2}, 120 if q else 1200, 24)
     sc.replay_behaviours("N4W3S5", {"N": 4, "Workers": 3, "Steps": 5, "MaxPn": 16}, 80 if q else 1200, 20)
+    sc.random_runs(S.endgame_specs(sc.chk.seed + 91, 12 if q else 90))
     from harness.checks import runner as R
     R.run(sc, tier)
     # the unmodified scheduler() with a real process pool and real moves: exact step count, every result consumed once, also when the
